@@ -29,16 +29,20 @@ ATOMS = {
     30: "'o\"clock'", 31: "'('", 32: "')'", 33: "'a (b'", 34: "'x`y'",
     35: '"it\'s"', 36: '"("', 37: '")"', 38: '"5` ("', 39: '"[x] + (1"',
     40: "`o'clock`", 41: "`(`", 42: '`5"`', 43: "`a)b`", 44: "`it's (`",
+    # runs of blanks / a tab inside operands (operand text is compared exactly), every quote kind and a regex
+    45: "'New  York'", 46: '"Area:   "', 47: "`a \t b`", 48: "/^a  b+/", 49: '"tab\there  "',
 }
 PLAIN_ATOMS = set(range(1, 27))
-TRICKY = {"TrickySq": {30, 31, 32, 33, 34}, "TrickyDq": {35, 36, 37, 38, 39}, "TrickyBq": {40, 41, 42, 43, 44}}
-FUNCS = {1: "length", 2: "tostring", 3: "upper", 4: "round", 5: "lookup", 6: "inlist"}
+TRICKY = {"TrickySq": {30, 31, 32, 33, 34, 45}, "TrickyDq": {35, 36, 37, 38, 39, 46, 49},
+          "TrickyBq": {40, 41, 42, 43, 44, 47}}
+FUNCS = {1: "length", 2: "tostring", 3: "upper", 4: "round", 5: "lookup", 6: "inlist", 7: "initcap"}
 # arguments of function f: ids 100f+j (FuncArity(f) = 1 for odd f, 2 for even f in spec/Expr.tla)
-FUNC_ARGS = {101: "[n]", 201: "[x1]", 202: '"%.2f"', 301: "[label]", 401: "[y]", 402: "3", 601: "[code]"}
+FUNC_ARGS = {101: "[n]", 201: "[x1]", 202: '"%.2f"', 301: "[label]", 401: "[y]", 402: "3", 601: "[code]", 701: '"two  blanks\t"'}
 # list expressions: list l has 1 + l % 3 elements with ids 600+10l+j (ListElems in spec/Expr.tla); elements are
 # interned in a namespace of their own (an element "1" is not the operand "1"); functions 5 and 6 take lists 4 / 5
 LISTS = {1: ["a", "b c"], 2: ["1", "2", "3"], 3: ["007"], 4: ["01", "02"], 5: ["1.50", "2.0", "x"], 6: ["1e3"],
-         7: ['"a"', "'b'"], 8: ["-2", "5", "+4"], 9: ["motorway"], 10: ["2_Klass", "Rte2etr"]}
+         7: ['"a"', "'b'"], 8: ["-2", "5", "+4"], 9: ["motorway"], 10: ["2_Klass", "Rte2etr"],
+         11: ["x  y", '"q  r"', "z"]}
 LIST_ELEMS = {600 + 10 * l + j + 1: t for l, ts in LISTS.items() for j, t in enumerate(ts)}
 assert all(len(ts) == 1 + l % 3 for l, ts in LISTS.items())
 
